@@ -206,7 +206,7 @@ Lemma q_model_props E p t n d :
   PREC * (Z.of_nat n * q_model E p t n d) <= p_share p * allowed_amount p (t_fee t) d + Z.of_nat n * HALF /\
   (allowed_amount p (t_fee t) d = 0 -> q_model E p t n d = 0).
 Proof.
-  intros Honce Hs Hf. unfold q_model. destruct n as [|n'].
+  intros Honce Hs Hf. unfold params_ok in Hs. unfold q_model. destruct n as [|n'].
   - pose proof (allowed_amount_nonneg p (t_fee t) d Hf). repeat split; try lia; try nia.
   - rewrite (amount_of_allowed_fees E p (t_fee t) d Honce).
     pose proof (allowed_amount_nonneg p (t_fee t) d Hf) as Ha.
@@ -482,7 +482,7 @@ Lemma total_payout_tight E p t n d :
   2 * (Z.of_nat n * q_model E p t n d) <= 2 * allowed_amount p (t_fee t) d + Z.of_nat n.
 Proof.
   intros Honce Hp Hf. destruct (q_model_props E p t n d Honce Hp Hf) as (B0 & B1 & _).
-  pose proof PREC_HALF. pose proof HALF_pos. pose proof Hp as Hs.
+  pose proof PREC_HALF. pose proof HALF_pos. pose proof Hp as Hs. unfold params_ok in Hs.
   pose proof (allowed_amount_nonneg p (t_fee t) d Hf). split; nia.
 Qed.
 
